@@ -3,67 +3,17 @@ import EdpVerif.Lemmas.SerdeMem
 namespace Edp.Serde
 open Edp Edp.Spec.Serde
 
-theorem takeWhile_all {α} (p : α → Bool) : ∀ (l : List α), ∀ x ∈ l.takeWhile p, p x = true
-  | [], x, h => by simp at h
-  | a :: r, x, h => by
-    simp only [List.takeWhile_cons] at h
-    split at h
-    · rcases List.mem_cons.mp h with rfl | h'
-      · assumption
-      · exact takeWhile_all p r x h'
-    · simp at h
-
-theorem magVal_append_zeros : ∀ (a z : Bytes), (∀ x ∈ z, x = 0) → magVal (a ++ z) = magVal a
-  | [], z, h => by
-    induction z with
-    | nil => rfl
-    | cons x r ih =>
-      have hx : x = 0 := h x (by simp)
-      simp only [List.nil_append, magVal] at ih ⊢
-      rw [ih (fun y hy => h y (by simp [hy])), hx]; rfl
-  | b :: a, z, h => by simp [magVal, magVal_append_zeros a z h]
-
-theorem magVal_zeros (m : Bytes) (hm : ∀ x ∈ m, x = 0) : magVal m = 0 := by
-  have := magVal_append_zeros [] m hm
-  simpa [magVal] using this
-
-theorem magVal_take_sigLen (l : Bytes) : magVal (l.take (sigLen l)) = magVal l := by
-  have hl : l = (l.reverse.dropWhile (· == 0)).reverse ++ (l.reverse.takeWhile (· == 0)).reverse := by
-    have hsplit := List.takeWhile_append_dropWhile (p := (· == (0 : UInt8))) (l := l.reverse)
-    have := congrArg List.reverse hsplit
-    rw [List.reverse_append, List.reverse_reverse] at this
-    exact this.symm
-  have hz : ∀ x ∈ (l.reverse.takeWhile (· == 0)).reverse, x = 0 := by
-    intro x hx
-    have := takeWhile_all (· == (0 : UInt8)) l.reverse x (List.mem_reverse.mp hx)
-    simpa using this
-  by_cases hnil : l.reverse.dropWhile (· == 0) = []
-  · rw [hnil] at hl
-    simp only [List.reverse_nil, List.nil_append] at hl
-    have hall : ∀ x ∈ l, x = 0 := by rw [hl]; exact hz
-    rw [magVal_zeros l hall, magVal_zeros _ (fun x hx => hall x (List.mem_of_mem_take hx))]
-  · have hs : sigLen l = (l.reverse.dropWhile (· == 0)).reverse.length := by
-      unfold sigLen
-      split
-      · rename_i h; exact absurd h hnil
-      · simp
-    rw [hs]
-    generalize (l.reverse.dropWhile (· == 0)).reverse = a at *
-    generalize (l.reverse.takeWhile (· == 0)).reverse = z at *
-    subst hl
-    rw [List.take_left, magVal_append_zeros a z hz]
-
-theorem intDigits_ok (i : Int) (h0 : 0 ≤ i) (h1 : i ≤ i64Max) :
-    (intDigits i).length ≤ 8 ∧ ((magVal (intDigits i) : Nat) : Int) = i := by
+theorem intDigits_ok (i : Int) (h : i.natAbs < 2 ^ 64) :
+    (intDigits i).length ≤ 8 ∧ magVal (intDigits i) = i.natAbs := by
   unfold intDigits
   simp only []
   constructor
   · have := leN_length 8 i.natAbs
     simp only [List.length_take]; omega
-  · rw [magVal_take_sigLen, magVal_leN 8 _ (by simp only [i64Max] at h1; omega)]
-    omega
+  · rw [magVal_take_sigLen, magVal_leN 8 _ (by simpa using h)]
 
-theorem deInt_wire (k : IntTy) (i : Int) (h : k.inRange i = true) (hs : (decide (k = .u64) || inI32 i) = true) :
+/-- every integer of every width, in either wire representation, reads back (the fixed `integer_term_as`) -/
+theorem deInt_wire (k : IntTy) (i : Int) (h : k.inRange i = true) :
     deInt k (wireT (serInt k i)) = .ok (.int k i) := by
   unfold serInt
   split
@@ -72,20 +22,21 @@ theorem deInt_wire (k : IntTy) (i : Int) (h : k.inRange i = true) (hs : (decide 
     unfold serInt at this
     rw [if_pos hc] at this
     simpa [wireT] using this
-  · rename_i hc
-    by_cases h32 : inI32 i = true
+  · by_cases h32 : inI32 i = true
     · simp [wireT, h32, deInt, h]
-    · have hk : k = .u64 := by simpa [h32] using hs
-      subst hk
-      simp only [IntTy.inRange, IntTy.lo, IntTy.hi, Bool.and_eq_true] at h
-      have h1 := of_decide_eq_true h.1
-      have hle : i ≤ i64Max := by
-        apply Int.not_lt.mp
-        intro hgt
-        exact hc ⟨rfl, hgt⟩
-      have hd := intDigits_ok i h1 hle
-      have hneg : decide (i < 0) = false := by simpa using h1
-      simp [wireT, h32, deInt, hneg, hd.1, hd.2]
+    · have hb : i.natAbs < 2 ^ 64 := by
+        have h' := h
+        simp only [IntTy.inRange, Bool.and_eq_true] at h'
+        have h1 := of_decide_eq_true h'.1
+        have h2 := of_decide_eq_true h'.2
+        cases k <;> simp only [IntTy.lo, IntTy.hi] at h1 h2 <;> omega
+      have hd := intDigits_ok i hb
+      simp only [wireT, h32, Bool.false_eq_true, if_false]
+      apply deInt_big k _ _ hd.1 i _ h
+      rw [hd.2]
+      by_cases hneg : i < 0
+      · simp only [hneg, decide_true, if_true]; omega
+      · simp only [hneg, decide_false, Bool.false_eq_true, if_false]; omega
 
 theorem isUndef_wireT (t : Term) : isUndef (wireT t) = isUndef t := by
   cases t with
@@ -151,14 +102,6 @@ theorem de_enum_wire (en vn : Bytes) (vs : List (Bytes × Ty)) (p : Val) :
     de (.enum en vs) (wireT (serVariant vn p)) = deVariant en vn vs (wireL (restOf p)) := by
   cases p <;> simp [serVariant, wireT, wireL, de, deStr, restOf]
 
-theorem wireSafeL_all : ∀ (vs : List Val), wireSafeL vs = vs.all wireSafe
-  | [] => rfl
-  | v :: r => by simp [wireSafeL, wireSafeL_all r]
-
-theorem wireSafeKV_all : ∀ (l : List (Val × Val)), wireSafeKV l = l.all (fun kv => wireSafe kv.1 && wireSafe kv.2)
-  | [] => rfl
-  | (k, v) :: r => by simp [wireSafeKV, wireSafeKV_all r]
-
 theorem fieldGood (fs : List (Bytes × Val)) (fts : List (Bytes × Ty)) (hn : fs.map (·.1) = fts.map (·.1))
     (hv : ∀ y ∈ fts, validUtf8 y.1 = true) : ∀ x ∈ wireVals (fieldTerms fs), binKey.good x.1 = true := by
   intro x hx
@@ -175,63 +118,59 @@ theorem mem_wireVals (fs : List (Bytes × Val)) (f : Bytes × Val) (hf : f ∈ f
 
 mutual
 theorem deW : ∀ (ty : Ty) (v : Val), hasTy v ty = true → Ty.wf ty = true → plainWith id v = true →
-    plainWith wireT v = true → wireSafe v = true → de ty (wireT (ser v)) = .ok v
-  | .int k, v, h, _, _, _, hs => by
+    plainWith wireT v = true → de ty (wireT (ser v)) = .ok v
+  | .int k, v, h, _, _, _ => by
     cases v <;> simp [hasTy] at h
     obtain ⟨rfl, h2⟩ := h
-    simp only [wireSafe] at hs
     simp only [ser, de]
-    exact deInt_wire _ _ h2 hs
-  | .f32, v, h, _, hp, _, _ => by
+    exact deInt_wire _ _ h2
+  | .f32, v, h, _, hp, _ => by
     cases v <;> simp [hasTy] at h
     simp only [plainWith, Bool.not_eq_true'] at hp
     simp [ser, wireT, de, f32_roundtrip _ h hp]
-  | .f64, v, h, _, _, _, _ => by cases v <;> simp [hasTy] at h; simp [ser, wireT, de]
-  | .bool, v, h, _, _, _, _ => by
+  | .f64, v, h, _, _, _ => by cases v <;> simp [hasTy] at h; simp [ser, wireT, de]
+  | .bool, v, h, _, _, _ => by
     cases v with
     | bool b => cases b <;> simp [ser, wireT, de, sTrue, sFalse]
     | _ => simp [hasTy] at h
-  | .char, v, h, _, _, _, hs => by cases v <;> simp [hasTy] at h; simp [wireSafe] at hs
-  | .string, v, h, _, _, _, _ => by cases v <;> simp [hasTy] at h; simp [ser, wireT, de, deStr, h]
-  | .bytes, v, h, _, _, _, _ => by cases v <;> simp [hasTy] at h; simp [ser, wireT, de]
-  | .unit, v, h, _, _, _, _ => by cases v <;> simp [hasTy] at h; simp [ser, wireT, de]
-  | .unitStruct n, v, h, _, _, _, _ => by cases v <;> simp [hasTy] at h; subst h; simp [ser, wireT, de]
-  | .option t, v, h, hw, hp, hq, hs => by
+  | .char, v, h, _, _, _ => by
+    cases v <;> simp [hasTy] at h
+    simp [ser, wireT, de, deChar, utf8_one _ h]
+  | .string, v, h, _, _, _ => by cases v <;> simp [hasTy] at h; simp [ser, wireT, de, deStr, h]
+  | .bytes, v, h, _, _, _ => by cases v <;> simp [hasTy] at h; simp [ser, wireT, de]
+  | .unit, v, h, _, _, _ => by cases v <;> simp [hasTy] at h; simp [ser, wireT, de]
+  | .unitStruct n, v, h, _, _, _ => by cases v <;> simp [hasTy] at h; subst h; simp [ser, wireT, de]
+  | .option t, v, h, hw, hp, hq => by
     simp only [Ty.wf, Bool.and_eq_true, Bool.not_eq_true'] at hw
     cases v <;> simp [hasTy] at h
     · simp [ser, wireT, de, isUndef]
     · rename_i x
       simp only [plainWith] at hp hq
-      simp only [wireSafe] at hs
-      simp only [ser, de, isUndef_wireT, not_undef t x h hw.1, deW t x h hw.2 hp hq hs]
+      simp only [ser, de, isUndef_wireT, not_undef t x h hw.1, deW t x h hw.2 hp hq]
       simp
-  | .newtype n t, v, h, hw, hp, hq, hs => by
+  | .newtype n t, v, h, hw, hp, hq => by
     simp only [Ty.wf] at hw
     cases v <;> simp [hasTy] at h
     rename_i n' x
     obtain ⟨rfl, h2⟩ := h
     simp only [plainWith] at hp hq
-    simp only [wireSafe] at hs
-    simp only [ser, de, deW t x h2 hw hp hq hs]
-  | .tuple ts, v, h, hw, hp, hq, hs => by
+    simp only [ser, de, deW t x h2 hw hp hq]
+  | .tuple ts, v, h, hw, hp, hq => by
     simp only [Ty.wf] at hw
     cases v <;> simp [hasTy] at h
     simp only [plainWith] at hp hq
-    simp only [wireSafe] at hs
-    simp only [ser, wireT, de, deLW ts _ h hw hp hq hs]
-  | .tupleStruct n ts, v, h, hw, hp, hq, hs => by
+    simp only [ser, wireT, de, deLW ts _ h hw hp hq]
+  | .tupleStruct n ts, v, h, hw, hp, hq => by
     simp only [Ty.wf] at hw
     cases v <;> simp [hasTy] at h
     obtain ⟨rfl, h2⟩ := h
     simp only [plainWith] at hp hq
-    simp only [wireSafe] at hs
-    simp only [ser, wireT, de, deLW ts _ h2 hw hp hq hs]
-  | .seq t, v, h, hw, hp, hq, hs => by
+    simp only [ser, wireT, de, deLW ts _ h2 hw hp hq]
+  | .seq t, v, h, hw, hp, hq => by
     simp only [Ty.wf] at hw
     cases v <;> simp [hasTy] at h
     rename_i vs
     simp only [plainWith, plainL_all, List.all_eq_true] at hp hq
-    simp only [wireSafe, wireSafeL_all, List.all_eq_true] at hs
     cases vs with
     | nil => simp [ser, serL, wireT, de]
     | cons a r =>
@@ -239,13 +178,12 @@ theorem deW : ∀ (ty : Ty) (v : Val), hasTy v ty = true → Ty.wf ty = true →
       have e : wireL (ser a :: serL r) = (a :: r).map (fun v => wireT (ser v)) := by
         rw [wireL_eq_map, serL_eq_map]; simp [Function.comp_def]
       rw [e, mapME_ok (de t) (fun v => wireT (ser v)) (a :: r)
-        (fun b hb => deW t b (h b hb) hw (hp b hb) (hq b hb) (hs b hb))]
-  | .map kt vt, v, h, hw, hp, hq, hs => by
+        (fun b hb => deW t b (h b hb) hw (hp b hb) (hq b hb) )]
+  | .map kt vt, v, h, hw, hp, hq => by
     simp only [Ty.wf, Bool.and_eq_true] at hw
     cases v <;> simp [hasTy] at h
     rename_i l
     simp only [plainWith, Bool.and_eq_true, plainKV_all, List.all_eq_true] at hp hq
-    simp only [wireSafe, wireSafeKV_all, List.all_eq_true, Bool.and_eq_true] at hs
     have hasc : insertAll (serKV l) = serKV l := insertAll_asc _ (by rw [← keysOf_eq]; exact hp.2)
     have hasc2 : insertAll (wireKV (serKV l)) = wireKV (serKV l) := by
       apply insertAll_asc
@@ -259,31 +197,28 @@ theorem deW : ∀ (ty : Ty) (v : Val), hasTy v ty = true → Ty.wf ty = true →
     have h1 := h kv.1 kv.2 hkv
     have h2 := hp.1 kv hkv
     have h3 := hq.1 kv hkv
-    have h4 := hs kv hkv
-    simp only [Function.comp, deW kt kv.1 h1.1 hw.1 h2.1 h3.1 h4.1, deW vt kv.2 h1.2 hw.2 h2.2 h3.2 h4.2]
-  | .struct n fts, v, h, hw, hp, hq, hs => by
+    simp only [Function.comp, deW kt kv.1 h1.1 hw.1 h2.1 h3.1, deW vt kv.2 h1.2 hw.2 h2.2 h3.2]
+  | .struct n fts, v, h, hw, hp, hq => by
     simp only [Ty.wf, Bool.and_eq_true, List.all_eq_true] at hw
     cases v <;> simp [hasTy] at h
     rename_i n' fs
     obtain ⟨rfl, h2⟩ := h
     simp only [plainWith] at hp hq
-    simp only [wireSafe] at hs
     have hn := hasTyF_names fs fts h2
     have hd : namesDistinct ((fieldTerms fs).map (·.1)) = true := by rw [fieldTerms_names, hn]; exact hw.1.1
     have km := keyed_perm binKey (wireVals (fieldTerms fs)) _ (wire_keyed binKey wireT_bin (fieldTerms fs) hd)
       (by rw [wireVals_names]; exact hd) (fieldGood fs fts hn hw.1.2)
     rw [← serFields_kvs] at km
     simp only [ser, wireT, de, km.2, Bool.not_true, Bool.false_eq_true, if_false]
-    rw [deFieldsW fts fs _ h2 hw.2 hp hq hs]
+    rw [deFieldsW fts fs _ h2 hw.2 hp hq]
     intro f hf
     exact km.1 (f.1, wireT (ser f.2)) (mem_wireVals fs f hf)
-  | .exStruct md fts, v, h, hw, hp, hq, hs => by
+  | .exStruct md fts, v, h, hw, hp, hq => by
     simp only [Ty.wf, Bool.and_eq_true, Bool.not_eq_true', List.contains_eq_mem, decide_eq_false_iff_not] at hw
     cases v <;> simp [hasTy] at h
     rename_i md' fs
     obtain ⟨rfl, h2⟩ := h
     simp only [plainWith] at hp hq
-    simp only [wireSafe] at hs
     have hn := hasTyF_names fs fts h2
     have hd : namesDistinct (((sStructKey, Term.atom (sElixirDot ++ md')) :: fieldTerms fs).map (·.1)) = true := by
       simp only [List.map_cons, namesDistinct, fieldTerms_names, hn, Bool.and_eq_true, Bool.not_eq_true',
@@ -299,72 +234,68 @@ theorem deW : ∀ (ty : Ty) (v : Val), hasTy v ty = true → Ty.wf ty = true →
     simp only [ser, wireT, de, km.2, hs0, Bool.not_true, Bool.false_eq_true, if_false]
     simp only [List.all_cons, List.all_nil, deStr, beq_self_eq_true, Bool.and_true, Bool.not_true,
       Bool.false_eq_true, if_false, atomKey]
-    rw [deExFieldsW fts fs _ h2 hw.2 hp hq hs (fun n hn e => hw.1.2 (e ▸ hn))]
+    rw [deExFieldsW fts fs _ h2 hw.2 hp hq (fun n hn e => hw.1.2 (e ▸ hn))]
     intro f hf
     exact km.1 (f.1, wireT (ser f.2)) (by
       have := mem_wireVals fs f hf
       simp only [wireVals, List.map_cons, List.mem_cons] at this ⊢
       exact Or.inr this)
-  | .enum en vs, v, h, hw, hp, hq, hs => by
+  | .enum en vs, v, h, hw, hp, hq => by
     simp only [Ty.wf, Bool.and_eq_true] at hw
     cases v <;> simp [hasTy] at h
     rename_i en' vn p
     obtain ⟨rfl, h2⟩ := h
     simp only [plainWith] at hp hq
-    simp only [wireSafe] at hs
     simp only [ser]
-    rw [de_enum_wire, deVariantW vs en' vn p h2 hw.2 hp hq hs]
+    rw [de_enum_wire, deVariantW vs en' vn p h2 hw.2 hp hq]
 theorem deLW : ∀ (ts : List Ty) (vs : List Val), hasTyL vs ts = true → wfL ts = true → plainL id vs = true →
-    plainL wireT vs = true → wireSafeL vs = true → deL ts (wireL (serL vs)) = .ok vs
-  | [], [], _, _, _, _, _ => by simp [serL, wireL, deL]
-  | [], _ :: _, h, _, _, _, _ => by simp [hasTyL] at h
-  | _ :: _, [], h, _, _, _, _ => by simp [hasTyL] at h
-  | t :: ts, v :: vs, h, hw, hp, hq, hs => by
+    plainL wireT vs = true → deL ts (wireL (serL vs)) = .ok vs
+  | [], [], _, _, _, _ => by simp [serL, wireL, deL]
+  | [], _ :: _, h, _, _, _ => by simp [hasTyL] at h
+  | _ :: _, [], h, _, _, _ => by simp [hasTyL] at h
+  | t :: ts, v :: vs, h, hw, hp, hq => by
     simp only [hasTyL, Bool.and_eq_true] at h
     simp only [wfL, Bool.and_eq_true] at hw
     simp only [plainL, Bool.and_eq_true] at hp hq
-    simp only [wireSafeL, Bool.and_eq_true] at hs
-    simp only [serL, wireL, deL, deW t v h.1 hw.1 hp.1 hq.1 hs.1, deLW ts vs h.2 hw.2 hp.2 hq.2 hs.2]
+    simp only [serL, wireL, deL, deW t v h.1 hw.1 hp.1 hq.1, deLW ts vs h.2 hw.2 hp.2 hq.2]
 theorem deFieldsW : ∀ (fts : List (Bytes × Ty)) (fs : List (Bytes × Val)) (m : List (Term × Term)),
-    hasTyF fs fts = true → wfF fts = true → plainF id fs = true → plainF wireT fs = true → wireSafeF fs = true →
+    hasTyF fs fts = true → wfF fts = true → plainF id fs = true → plainF wireT fs = true →
     (∀ f ∈ fs, m.filter (keyIs f.1) = [(Term.bin f.1, wireT (ser f.2))]) → deFields fts m = .ok fs
-  | [], [], _, _, _, _, _, _, _ => by simp [deFields]
-  | [], _ :: _, _, h, _, _, _, _, _ => by simp [hasTyF] at h
-  | _ :: _, [], _, h, _, _, _, _, _ => by simp [hasTyF] at h
-  | (n, t) :: fts, (n', v) :: fs, m, h, hw, hp, hq, hs, hm => by
+  | [], [], _, _, _, _, _, _ => by simp [deFields]
+  | [], _ :: _, _, h, _, _, _, _ => by simp [hasTyF] at h
+  | _ :: _, [], _, h, _, _, _, _ => by simp [hasTyF] at h
+  | (n, t) :: fts, (n', v) :: fs, m, h, hw, hp, hq, hm => by
     simp only [hasTyF, Bool.and_eq_true, beq_iff_eq] at h
     obtain ⟨⟨rfl, h1⟩, h2⟩ := h
     simp only [wfF, Bool.and_eq_true] at hw
     simp only [plainF, Bool.and_eq_true] at hp hq
-    simp only [wireSafeF, Bool.and_eq_true] at hs
     have e := hm (n', v) (by simp)
     simp only at e
-    simp only [deFields, e, deW t v h1 hw.1 hp.1 hq.1 hs.1,
-      deFieldsW fts fs m h2 hw.2 hp.2 hq.2 hs.2 (fun f hf => hm f (by simp [hf]))]
+    simp only [deFields, e, deW t v h1 hw.1 hp.1 hq.1,
+      deFieldsW fts fs m h2 hw.2 hp.2 hq.2 (fun f hf => hm f (by simp [hf]))]
 theorem deExFieldsW : ∀ (fts : List (Bytes × Ty)) (fs : List (Bytes × Val)) (m : List (Term × Term)),
-    hasTyF fs fts = true → wfF fts = true → plainF id fs = true → plainF wireT fs = true → wireSafeF fs = true →
+    hasTyF fs fts = true → wfF fts = true → plainF id fs = true → plainF wireT fs = true →
     (∀ n ∈ fts.map (·.1), n ≠ sStructKey) →
     (∀ f ∈ fs, m.filter (keyIs f.1) = [(Term.atom f.1, wireT (ser f.2))]) → deExFields fts m = .ok fs
-  | [], [], _, _, _, _, _, _, _, _ => by simp [deExFields]
-  | [], _ :: _, _, h, _, _, _, _, _, _ => by simp [hasTyF] at h
-  | _ :: _, [], _, h, _, _, _, _, _, _ => by simp [hasTyF] at h
-  | (n, t) :: fts, (n', v) :: fs, m, h, hw, hp, hq, hs, hk, hm => by
+  | [], [], _, _, _, _, _, _, _ => by simp [deExFields]
+  | [], _ :: _, _, h, _, _, _, _, _ => by simp [hasTyF] at h
+  | _ :: _, [], _, h, _, _, _, _, _ => by simp [hasTyF] at h
+  | (n, t) :: fts, (n', v) :: fs, m, h, hw, hp, hq, hk, hm => by
     simp only [hasTyF, Bool.and_eq_true, beq_iff_eq] at h
     obtain ⟨⟨rfl, h1⟩, h2⟩ := h
     simp only [wfF, Bool.and_eq_true] at hw
     simp only [plainF, Bool.and_eq_true] at hp hq
-    simp only [wireSafeF, Bool.and_eq_true] at hs
     have e := hm (n', v) (by simp)
     simp only at e
     have hne : n' ≠ sStructKey := hk n' (by simp)
-    simp only [deExFields, hne, if_false, e, mapME, deW t v h1 hw.1 hp.1 hq.1 hs.1, List.getLast?_singleton,
-      deExFieldsW fts fs m h2 hw.2 hp.2 hq.2 hs.2 (fun x hx => hk x (by simp at hx ⊢; exact Or.inr hx))
+    simp only [deExFields, hne, if_false, e, mapME, deW t v h1 hw.1 hp.1 hq.1, List.getLast?_singleton,
+      deExFieldsW fts fs m h2 hw.2 hp.2 hq.2 (fun x hx => hk x (by simp at hx ⊢; exact Or.inr hx))
         (fun f hf => hm f (by simp [hf]))]
 theorem deVariantW : ∀ (vs : List (Bytes × Ty)) (en vn : Bytes) (p : Val),
-    hasTyV vn p vs = true → wfV vs = true → plainWith id p = true → plainWith wireT p = true → wireSafe p = true →
+    hasTyV vn p vs = true → wfV vs = true → plainWith id p = true → plainWith wireT p = true →
     deVariant en vn vs (wireL (restOf p)) = .ok (.variant en vn p)
-  | [], _, _, _, h, _, _, _, _ => by simp [hasTyV] at h
-  | (n, sh) :: vs, en, vn, p, h, hw, hp, hq, hs => by
+  | [], _, _, _, h, _, _, _ => by simp [hasTyV] at h
+  | (n, sh) :: vs, en, vn, p, h, hw, hp, hq => by
     simp only [wfV, Bool.and_eq_true] at hw
     by_cases hn : n = vn
     · subst hn
@@ -377,22 +308,19 @@ theorem deVariantW : ∀ (vs : List (Bytes × Ty)) (en vn : Bytes) (p : Val),
         rename_i n' x
         obtain ⟨rfl, h2⟩ := h
         simp only [plainWith] at hp hq
-        simp only [wireSafe] at hs
         simp only [wfShape] at hw
-        simp only [deShape, restOf, wireL, deW t x h2 hw.1 hp hq hs]
+        simp only [deShape, restOf, wireL, deW t x h2 hw.1 hp hq]
       | tuple ts =>
         cases p <;> simp [hasTyP] at h
         rename_i xs
         simp only [plainWith] at hp hq
-        simp only [wireSafe] at hs
         simp only [wfShape] at hw
-        simp only [deShape, restOf, deLW ts xs h hw.1 hp hq hs]
+        simp only [deShape, restOf, deLW ts xs h hw.1 hp hq]
       | struct nm fts =>
         cases p <;> simp [hasTyP] at h
         rename_i n' fs
         obtain ⟨rfl, h2⟩ := h
         simp only [plainWith] at hp hq
-        simp only [wireSafe] at hs
         simp only [wfShape, Bool.and_eq_true, List.all_eq_true] at hw
         have hn := hasTyF_names fs fts h2
         have hd : namesDistinct ((fieldTerms fs).map (·.1)) = true := by
@@ -401,13 +329,95 @@ theorem deVariantW : ∀ (vs : List (Bytes × Ty)) (en vn : Bytes) (p : Val),
           (by rw [wireVals_names]; exact hd) (fieldGood fs fts hn hw.1.1.2)
         rw [← serFields_kvs] at km
         simp only [deShape, restOf, wireL, wireT, km.2, Bool.not_true, Bool.false_eq_true, if_false]
-        rw [deFieldsW fts fs _ h2 hw.1.2 hp hq hs]
+        rw [deFieldsW fts fs _ h2 hw.1.2 hp hq]
         intro f hf
         exact km.1 (f.1, wireT (ser f.2)) (mem_wireVals fs f hf)
       | _ => cases p <;> simp [hasTyP] at h
     · simp only [hasTyV, hn, if_false] at h
       simp only [deVariant, hn, if_false]
-      exact deVariantW vs en vn p h hw.2 hp hq hs
+      exact deVariantW vs en vn p h hw.2 hp hq
+end
+
+/-! ### maps with wire-stable keys: the canonical order is the same before and after the wire -/
+
+theorem stableKey_wire (k : Val) (h : stableKey k = true) : wireT (ser k) = ser k := by
+  cases k <;> simp [stableKey] at h <;> try (simp [ser, wireT]; done)
+  rename_i kk i
+  simp only [ser, serInt]
+  split
+  · simp [wireT]
+  · rename_i hc
+    rcases h with h | h
+    · simp [wireT, h]
+    · exact absurd ⟨h.1, h.2⟩ hc
+
+theorem stableKey_plain (f : Term → Term) (k : Val) (h : stableKey k = true) : plainWith f k = true := by
+  cases k <;> simp [stableKey] at h <;> simp [plainWith]
+
+theorem ascending_congr (f g : Term → Term) : ∀ (ks before : List Term),
+    (∀ k ∈ before, f k = g k) → (∀ k ∈ ks, f k = g k) → ascending f before ks = ascending g before ks
+  | [], _, _, _ => by simp [ascending]
+  | k :: r, before, hb, hk => by
+    simp only [ascending]
+    rw [ascending_congr f g r (before ++ [k])
+      (fun x hx => by rcases List.mem_append.mp hx with h | h; exact hb x h; simp at h; subst h; exact hk x (by simp))
+      (fun x hx => hk x (by simp [hx]))]
+    rw [hk k (by simp)]
+    congr 1
+    apply Bool.eq_iff_iff.mpr
+    simp only [List.all_eq_true]
+    constructor
+    · intro h p hp; rw [← hb p hp]; exact h p hp
+    · intro h p hp; rw [hb p hp]; exact h p hp
+
+theorem keysOf_stable : ∀ (l : List (Val × Val)), keysStableKV l = true → ∀ k ∈ keysOf l, wireT k = id k
+  | [], _, k, hk => by simp [keysOf] at hk
+  | (a, b) :: r, h, k, hk => by
+    simp only [keysStableKV, Bool.and_eq_true] at h
+    simp only [keysOf, List.mem_cons] at hk
+    rcases hk with rfl | hk
+    · exact stableKey_wire a h.1.1
+    · exact keysOf_stable r h.2 k hk
+
+mutual
+theorem plain_stable : ∀ (v : Val), keysStable v = true → plainWith wireT v = plainWith id v
+  | .some v, h => by simp only [keysStable] at h; simp only [plainWith, plain_stable v h]
+  | .newtype _ v, h => by simp only [keysStable] at h; simp only [plainWith, plain_stable v h]
+  | .variant _ _ p, h => by simp only [keysStable] at h; simp only [plainWith, plain_stable p h]
+  | .tuple vs, h => by simp only [keysStable] at h; simp only [plainWith, plainL_stable vs h]
+  | .seq vs, h => by simp only [keysStable] at h; simp only [plainWith, plainL_stable vs h]
+  | .tupleStruct _ vs, h => by simp only [keysStable] at h; simp only [plainWith, plainL_stable vs h]
+  | .struct _ fs, h => by simp only [keysStable] at h; simp only [plainWith, plainF_stable fs h]
+  | .exStruct _ fs, h => by simp only [keysStable] at h; simp only [plainWith, plainF_stable fs h]
+  | .map kvs, h => by
+    simp only [keysStable] at h
+    simp only [plainWith, plainKV_stable kvs h]
+    rw [ascending_congr wireT id (keysOf kvs) [] (by simp) (keysOf_stable kvs h)]
+  | .int _ _, _ => rfl
+  | .f32 _, _ => rfl
+  | .f64 _, _ => rfl
+  | .bool _, _ => rfl
+  | .char _, _ => rfl
+  | .string _, _ => rfl
+  | .bytes _, _ => rfl
+  | .unit, _ => rfl
+  | .none, _ => rfl
+  | .unitStruct _, _ => rfl
+theorem plainL_stable : ∀ (vs : List Val), keysStableL vs = true → plainL wireT vs = plainL id vs
+  | [], _ => rfl
+  | v :: r, h => by
+    simp only [keysStableL, Bool.and_eq_true] at h
+    simp only [plainL, plain_stable v h.1, plainL_stable r h.2]
+theorem plainKV_stable : ∀ (l : List (Val × Val)), keysStableKV l = true → plainKV wireT l = plainKV id l
+  | [], _ => rfl
+  | (k, v) :: r, h => by
+    simp only [keysStableKV, Bool.and_eq_true] at h
+    simp only [plainKV, stableKey_plain _ k h.1.1, plain_stable v h.1.2, plainKV_stable r h.2]
+theorem plainF_stable : ∀ (fs : List (Bytes × Val)), keysStableF fs = true → plainF wireT fs = plainF id fs
+  | [], _ => rfl
+  | (_, v) :: r, h => by
+    simp only [keysStableF, Bool.and_eq_true] at h
+    simp only [plainF, plain_stable v h.1, plainF_stable r h.2]
 end
 
 end Edp.Serde
